@@ -197,6 +197,8 @@ type WorkerOpts struct {
 	// is load independent and far above the case's normal cost) in a
 	// sub-case is reported as non-termination, a violation.
 	CPULimitIsViolation bool
+	// BlockedSeconds is the window of the blocked-process monitor (default 60).
+	BlockedSeconds int
 	// Race: run workers from the -race binary.
 	Race bool
 	// Env adds environment variables for the workers.
@@ -576,6 +578,9 @@ func runBatch(ck Check, o WorkerOpts, exe, scratch string, bi int, b batch, resu
 			wall = 900
 		}
 		timedOut := false
+		// The worker leads its own process group, so that its children (the par
+		// binary, strace) are accounted and killed with it.
+		cmd.SysProcAttr = &syscall.SysProcAttr{Setpgid: true}
 		err := cmd.Start()
 		if err != nil {
 			panic(err)
@@ -584,10 +589,52 @@ func runBatch(ck Check, o WorkerOpts, exe, scratch string, bi int, b batch, resu
 			timedOut = true
 			cmd.Process.Signal(syscall.SIGQUIT)
 			time.Sleep(2 * time.Second)
-			cmd.Process.Kill()
+			syscall.Kill(-cmd.Process.Pid, syscall.SIGKILL)
 		})
+		// Blocked-process monitor: a case is open, the journal does not grow and
+		// the whole process group consumes no CPU time at all for a full window.
+		// That is not slowness (a runnable process accumulates CPU time however
+		// loaded the machine is) but a process in which nothing can run any more:
+		// a deadlock or a wait that nobody will ever satisfy.
+		blocked := false
+		stopMon := make(chan struct{})
+		go func() {
+			window := o.BlockedSeconds
+			if window <= 0 {
+				window = 60
+			}
+			pid := cmd.Process.Pid
+			lastTicks, lastSize := int64(-1), int64(-1)
+			idle := 0
+			for {
+				select {
+				case <-stopMon:
+					return
+				case <-time.After(5 * time.Second):
+				}
+				ticks := groupCPUTicks(pid)
+				var size int64
+				if st, err := os.Stat(journal); err == nil {
+					size = st.Size()
+				}
+				if ticks >= 0 && ticks == lastTicks && size == lastSize {
+					idle += 5
+				} else {
+					idle = 0
+				}
+				lastTicks, lastSize = ticks, size
+				if idle >= window {
+					blocked = true
+					cmd.Process.Signal(syscall.SIGQUIT)
+					time.Sleep(2 * time.Second)
+					syscall.Kill(-pid, syscall.SIGKILL)
+					return
+				}
+			}
+		}()
 		werr := cmd.Wait()
 		timer.Stop()
+		close(stopMon)
 		of.Close()
 		// Read the journal.
 		inflight := -1
@@ -680,6 +727,19 @@ func runBatch(ck Check, o WorkerOpts, exe, scratch string, bi int, b batch, resu
 			earlierV[inflight] = append(earlierV[inflight], vThis[inflight]...)
 			oom := strings.Contains(out, "out of memory") || strings.Contains(out, "cannot allocate memory")
 			switch {
+			case blocked:
+				// Do not resume: whatever blocks here is likely to block again.
+				r := Result{Idx: inflight, Crashed: true, Verdict: Violated, Sig: "non-termination|blocked",
+					Detail: fmt.Sprintf("sub-case %d: the worker and its children consumed no CPU time and made no progress for a whole window (nothing in the process can run any more: deadlock or lost wake-up); goroutine dump: %s", lastSub, tail(firstLines(out, 60), 3000))}
+				for _, sv := range append(earlierV[inflight], pending[inflight]...) {
+					r.More = append(r.More, sv)
+				}
+				results[inflight] = r
+				done[inflight] = true
+				for pos < len(b.cases) && done[b.cases[pos].Idx] {
+					pos++
+				}
+				continue
 			case timedOut:
 				pendingNotes[inflight] = append(pendingNotes[inflight], fmt.Sprintf("sub-case %d: wall-clock watchdog", lastSub))
 			case isRlimitCPU(werr) && o.CPULimitIsViolation:
@@ -715,6 +775,10 @@ func runBatch(ck Check, o WorkerOpts, exe, scratch string, bi int, b batch, resu
 			r := Result{Idx: inflight, Crashed: true}
 			msg, frame := parseCrash(out)
 			switch {
+			case blocked:
+				r.Verdict = Violated
+				r.Sig = "non-termination|blocked"
+				r.Detail = "the worker and its children consumed no CPU time and made no progress for a whole window (nothing in the process can run any more: deadlock or lost wake-up); goroutine dump: " + tail(firstLines(out, 60), 3000)
 			case timedOut:
 				r.Verdict = Inconclusive
 				r.Detail = "wall-clock watchdog fired; output tail: " + tail(out, 1500)
@@ -776,6 +840,48 @@ func runBatch(ck Check, o WorkerOpts, exe, scratch string, bi int, b batch, resu
 			pos++
 		}
 	}
+}
+
+// groupCPUTicks sums utime+stime (clock ticks) of every process whose
+// process group is pgid; -1 if none is found.
+func groupCPUTicks(pgid int) int64 {
+	ents, err := os.ReadDir("/proc")
+	if err != nil {
+		return -1
+	}
+	var sum int64
+	found := false
+	for _, e := range ents {
+		n := e.Name()
+		if n[0] < '0' || n[0] > '9' {
+			continue
+		}
+		b, err := os.ReadFile("/proc/" + n + "/stat")
+		if err != nil {
+			continue
+		}
+		st := string(b)
+		i := strings.LastIndexByte(st, ')')
+		if i < 0 {
+			continue
+		}
+		f := strings.Fields(st[i+1:])
+		// f[0]=state f[1]=ppid f[2]=pgrp ... f[11]=utime f[12]=stime
+		if len(f) < 13 {
+			continue
+		}
+		if pg, _ := strconv.Atoi(f[2]); pg != pgid {
+			continue
+		}
+		ut, _ := strconv.ParseInt(f[11], 10, 64)
+		stt, _ := strconv.ParseInt(f[12], 10, 64)
+		sum += ut + stt
+		found = true
+	}
+	if !found {
+		return -1
+	}
+	return sum
 }
 
 func isRlimitCPU(err error) bool {
